@@ -50,6 +50,19 @@ var ghost struct {
 	cfFile int
 	cfLine int
 
+	ioGate  bool // what the latest (Logger).EnabledContext / Enabled call made through the interface answered (C15)
+	ioThru  int  // number of records handed to the underlying logger by the adapters (WriteThru / WriteInternal / LogAttrs calls) (C15)
+	ioAttrs int  // identity of the attribute list the latest convertLogSlogRecordAttrs call returned (C15)
+
+	// conversion of log/slog attributes (C15): the time the latest Value.Time call returned, identity of the
+	// member list the latest Value.Group call returned, the two fields of the value the latest Value.Resolve call
+	// returned, identity of the list the latest convertGroupToFields call returned
+	ioTime   time.Time
+	ioGrp    int
+	ioResNum uint64
+	ioResAny int
+	ioFields int
+
 	ioFmt int // content identity of the string the latest fmt.Sprintf call returned (C10 WithSkip)
 
 	warns int // number of diagnostic Warn calls issued by printOut after a failed destination (C13)
@@ -148,6 +161,7 @@ func specInterrupts() bool {
 
 //@ func convertLogSlogRecordAttrs
 //@   trusted
+//@   posteffect ghost.ioAttrs = ident(result)
 
 //@ func (*handler4LogSlog).Handle
 //@   props C14 C15
@@ -156,6 +170,11 @@ func specInterrupts() bool {
 //@   fd 2
 //@   at call runtime.Callers assert [C14.frame] implies(0 <= ei && ei <= 1048576, callee.skip == fd + 2 + ei)
 //@   at call (LogSlogAware).WriteThru assert [C14.pc] callee.pc == ghost.ioPC
+//@   at call (LogSlogAware).WriteThru assert [C15.content] callee.lvl == specSlogLevel(rec.Level) && callee.timestamp == rec.Time && callee.msg == rec.Message && ident(callee.attrs) == ghost.ioAttrs && callee.ctx == ctx && asiface(dyn(callee.self, *Entry), Logger) == s.Logger || !typeis(callee.self, *Entry)
+//@   at call (LogSlogAware).WriteThru effect ghost.ioThru = ghost.ioThru + 1
+//@   at call (Logger).LogAttrs effect ghost.ioThru = ghost.ioThru + 1
+//@   at call convertLogSlogRecordAttrs assert [C15.attrs] callee.rec == rec
+//@   ensures [C15.once] ghost.ioThru == old(ghost.ioThru) + 1 && isnil(result)
 
 //@ func (*handlerWriter).Write
 //@   props C14 C15
@@ -163,6 +182,11 @@ func specInterrupts() bool {
 //@   requires !isnil(s.l) && 0 <= s.extraFrames && s.extraFrames <= 1048576
 //@   fd 2
 //@   at call (LogLoggerAware).WriteInternal assert [C14.pc] implies(s.capturePC, callee.pc == ghost.ioPC)
+//@   at call (Logger).Enabled assert [C15.bridge-gate] callee.self == s.l && callee.requestingLevel == s.lvl
+//@   at call (LogLoggerAware).WriteInternal assert [C15.bridge-content] ghost.ioGate && callee.lvl == s.lvl && callee.buf == buf
+//@   at call (LogLoggerAware).WriteInternal effect ghost.ioThru = ghost.ioThru + 1
+//@   ensures [C15.bridge-once] implies(ghost.ioGate && typeis(s.l, *Entry), ghost.ioThru == old(ghost.ioThru) + 1)
+//@   ensures [C15.bridge-drop] implies(!ghost.ioGate, ghost.ioThru == old(ghost.ioThru))
 
 // the captured pc travels unchanged to the place where it is decoded:
 // WriteThru / WriteInternal / logContext -> print -> PrintCtx.set -> PrintCtx.source -> Source.Extract
@@ -193,6 +217,8 @@ func specInterrupts() bool {
 //@   assigns everything
 //@   keeps PrintCtx.off, PrintCtx.lvl
 //@   at call (*Entry).print assert [C14.thru] callee.s == s && callee.stackFrame == stackFrame && callee.lvl == lvl
+//@   at call (*Entry).print assert [C15.bridge-msg] len(callee.msg) == ite(len(buf) > 0 && buf[len(buf)-1] == 10, len(buf)-1, len(buf)) && forall(i, 0, len(callee.msg), callee.msg[i] == buf[i]) && len(callee.kvps) == 0
+//@   ensures [C15.bridge-n] n == old(len(buf)) && isnil(err)
 
 //@ func checkpath
 //@   props C02 C14
@@ -226,8 +252,9 @@ func specInterrupts() bool {
 //@   auto
 
 //@ func argsToAttrs
-//@   props C02 C07
+//@   props C02 C07 C15
 //@   auto
+//@   keeps gkvp.key, kvp.key, kvp.val
 
 //@ func (*Entry).logContext
 //@   props C01 C02 C12 C13
